@@ -37,6 +37,8 @@ def gen_base(rng):
             x = X.gen_cost_only(rng)        # a sub-display cost in a commodity whose precision depends on what was read before
         elif rng.random() < 0.25:
             x = X.gen_plain(rng, elide=rng.random() < 0.4)   # commodity-less amounts: displayed at their own precision
+        elif rng.random() < 0.3:
+            x = X.gen_lot_notes(rng)                        # lots that differ in their note (or date) only
         x.date = '2020/%02d/%02d' % (rng.randrange(1, 13), rng.randrange(1, 29))
         x.orig = i
         xs.append(x)
@@ -101,6 +103,7 @@ def write_tree(ctx, rng, xs, name):
 
 
 def run_variant(ctx, main):
+    LOTS = {}
     st, out, err = lib.run_ledger(['-f', main, 'bal', '--flat', '--empty', '--no-total', '--format', BAL])
     bal = {}
     for l in out.decode('utf-8', 'replace').split('\n'):
@@ -114,12 +117,15 @@ def run_variant(ctx, main):
                 ents = []
             # an amount bought at a cost carries a computed lot annotation (hidden by the hook): the account
             # keeps it as a separate entry of the same symbol; `bal` shows their sum
-            merged = {}
+            merged, lots = {}, {}
             for e in ents:
                 if e:
-                    q, pr = merged.get(e[0] or '', (0, 0))
-                    merged[e[0] or ''] = (q + e[1], max(pr, e[2]))
+                    base = (e[0] or '').split('~')[0]           # the model's account balances strip lot details
+                    q, pr = merged.get(base, (0, 0))
+                    merged[base] = (q + e[1], max(pr, e[2]))
+                    lots[e[0] or ''] = lots.get(e[0] or '', 0) + e[1]
             bal[a] = sorted((k, q, pr) for k, (q, pr) in merged.items() if q != 0)
+            LOTS[a] = sorted((k, q) for k, q in lots.items() if q != 0 and '~' in k)   # per written lot (price, date, note)
     st2, out2, err2 = lib.run_ledger(['-f', main, 'reg', '--sort', 'date', '--empty', '--format', REG])
     reg = {}
     nrows = 0
@@ -134,6 +140,7 @@ def run_variant(ctx, main):
             reg.setdefault(f[0], []).append(tuple(f[1:]))
     for d in reg:
         reg[d].sort()
+    bal['__lots__'] = [(a, v) for a, v in sorted(LOTS.items()) if v]
     return st, bal, reg, nrows, err.decode('utf-8', 'replace')
 
 
@@ -219,18 +226,18 @@ def run(ctx, n_override=None):
                 res.count('model:order-dependent')
             else:
                 mb = {a: v for a, v in mbal.items() if v}
-                ib = {a: v for a, v in bal.items() if v}
+                ib = {a: v for a, v in bal.items() if v and a != '__lots__'}
                 if st != 0 or mb != ib or mn != nrows:
                     res.disagreements.append(dict(name='C08/balances', case=main, kind=kind, status=st, counts=(mn, nrows), text='\n'.join(x.text(x.orig) for x in xs),
                                                   diff=str([(a, ib.get(a), mb.get(a)) for a in set(ib) | set(mb) if ib.get(a) != mb.get(a)])[:1500],
                                                   impl=str((sorted(ib.items()), nrows))[:600], model=str((sorted(mb.items()), mn))[:600], err=err[-300:]))
             # oracle: identical to the base
             if ref is None:
-                ref = (st, {a: [shown(e) for e in v] for a, v in bal.items()}, reg, open(main).read())
+                ref = (st, {a: ([shown(e) for e in v] if a != '__lots__' else v) for a, v in bal.items()}, reg, open(main).read())
                 if len(res.samples) < 3:
                     res.samples.append(dict(base=ref[3][:400], balances=str(sorted(ref[1].items()))[:300]))
                 continue
-            b2 = {a: [shown(e) for e in v] for a, v in bal.items()}
+            b2 = {a: ([shown(e) for e in v] if a != '__lots__' else v) for a, v in bal.items()}
             if st != ref[0]:
                 res.violations.append(dict(key='status-differs:' + kind, desc='exit status %s vs %s for the base' % (st, ref[0]),
                                            case=dict(base=ref[3], variant=main, text=open(main).read()), observed=str(st), required=str(ref[0])))
